@@ -69,9 +69,15 @@ fn ngroups_g<F: Fl, Sh: Shape<F>>() -> usize {
     Sh::ngroups()
 }
 pub fn levels(shape: &str) -> Vec<String> {
+    if shape.starts_with("DV") {
+        return vec![shape.to_string()];
+    }
     with_shape!(shape, S, levels_g, ())
 }
 pub fn paths(shape: &str) -> Vec<String> {
+    if shape.starts_with("DV") {
+        return vec![];
+    }
     with_shape!(shape, S, paths_g, ())
 }
 pub fn ngroups(shape: &str) -> usize {
@@ -115,6 +121,18 @@ where
 {
     let kind = spec.kind.as_str();
     let pres = spec.pres;
+    if kind.starts_with("dv:") {
+        use nalgebra::{Const, Dyn};
+        return match spec.shape.as_str() {
+            "DV21" => cases::run_dv::<F, _, _>(kind, pres, Const::<2>, Const::<1>),
+            "DV12" => cases::run_dv::<F, _, _>(kind, pres, Const::<1>, Const::<2>),
+            "DV22" => cases::run_dv::<F, _, _>(kind, pres, Const::<2>, Const::<2>),
+            "DV23" => cases::run_dv::<F, _, _>(kind, pres, Const::<2>, Const::<3>),
+            "DVD21" => cases::run_dv::<F, _, _>(kind, pres, Dyn(2), Const::<1>),
+            "DVD22" => cases::run_dv::<F, _, _>(kind, pres, Dyn(2), Dyn(2)),
+            other => panic!("dv not available for shape {other}"),
+        };
+    }
     if kind == "cmp" {
         return match spec.shape.as_str() {
             "Real" => cases::run_cmp::<F, Real>(pres),
